@@ -38,7 +38,8 @@ FLOORS = {"quick": {"evaluations": 1200, "targets_compared": 2000, "accepted_tar
 CORRUPTIONS = ["flip-message", "flip-signature", "flip-tweak", "flip-key", "swap-signatures",
                "other-key", "other-message", "tweak-added", "tweak-removed", "tweak-changed",
                "reparent", "wrong-root", "root-is-inner-key", "high-s", "truncate-signature",
-               "signature-trailing-byte"]
+               "signature-trailing-byte", "flip-signature-structure",
+               "flip-signature-structure"]
 
 
 def shards(tier, seed):
@@ -48,8 +49,26 @@ def shards(tier, seed):
 
 
 def flip(hexstr, rng):
+    """one bit; half of the time at an end of the datum (first two / last two bytes),
+    where tags, lengths, prefixes and parity bits live"""
     b = bytearray(bytes.fromhex(hexstr))
-    i = rng.randrange(len(b))
+    if rng.random() < 0.5 and len(b) >= 4:
+        i = rng.choice([0, 0, 1, len(b) - 1, len(b) - 2])
+    else:
+        i = rng.randrange(len(b))
+    b[i] ^= 1 << rng.randrange(8)
+    return bytes(b).hex()
+
+
+def flip_der_structure(hexstr, rng):
+    """one bit of one of the six structural bytes of SEQUENCE{INTEGER r, INTEGER s}"""
+    b = bytearray(bytes.fromhex(hexstr))
+    try:
+        rl = b[3]
+        pos = [0, 1, 2, 3, 4 + rl, 5 + rl]
+        i = rng.choice([p for p in pos if p < len(b)])
+    except IndexError:
+        i = 0
     b[i] ^= 1 << rng.randrange(8)
     return bytes(b).hex()
 
@@ -76,6 +95,8 @@ def corrupt(rng, doc, info, kind):
         el["message"] = flip(el["message"], rng)
     elif kind == "flip-signature":
         el["signature"] = flip(el["signature"], rng)
+    elif kind == "flip-signature-structure":
+        el["signature"] = flip_der_structure(el["signature"], rng)
     elif kind == "flip-tweak":
         cands = [e for e in els.values() if "tweak" in e]
         if not cands:
@@ -170,7 +191,30 @@ def run_code(doc, root_pub, tmpdir):
     with open(p, "w") as f:
         json.dump(doc, f)
     cert = HSMCertificate.from_jsonfile(p)
-    return cert.validate_and_get_values(HSMCertificateRoot(root_pub.hex()))
+    root = HSMCertificateRoot(root_pub.hex())
+    first = cert.validate_and_get_values(root)
+    # the same certificate object validated again: same root, an unrelated root, the first
+    # root once more - a verdict may not depend on what was validated before
+    del REVALIDATION[:]
+
+    def norm(r):
+        return {k: tuple(v) for k, v in r.items()}
+    try:
+        if norm(cert.validate_and_get_values(root)) != norm(first):
+            REVALIDATION.append("second-validation-differs")
+        other = HSMCertificateRoot(
+            "0479be667ef9dcbbac55a06295ce870b07029bfcdb2dce28d959f2815b16f81798"
+            "483ada7726a3c4655da4fbfc0e1108a8fd17b448a68554199c47d08ffb10d4b8")
+        if any(v[0] for v in cert.validate_and_get_values(other).values()):
+            REVALIDATION.append("valid-under-an-unrelated-root-after-earlier-validation")
+        if norm(cert.validate_and_get_values(root)) != norm(first):
+            REVALIDATION.append("validation-after-other-root-differs")
+    except Exception as e:
+        REVALIDATION.append("revalidation-raised-%s" % type(e).__name__)
+    return first
+
+
+REVALIDATION = []
 
 
 def compare(acc, doc, root_pub, tmpdir, label, case):
@@ -181,6 +225,9 @@ def compare(acc, doc, root_pub, tmpdir, label, case):
         acc.violation("validation-raised:%s" % type(e).__name__,
                       {"label": label, "exc": repr(e)[:300]}, case)
         return None
+    acc.count("revalidations_on_same_object")
+    for prob in REVALIDATION:
+        acc.violation("verdict-depends-on-earlier-validation:%s" % prob, {"label": label}, case)
     want, soft = o.verify(doc, root_pub)
     for t in doc["targets"]:
         acc.count("targets_compared")
